@@ -15,6 +15,7 @@
 from __future__ import annotations
 
 import base64
+import codecs
 import io
 import json
 import os
@@ -49,7 +50,7 @@ def report_case(draw):
             "path": f"/r{i}" + draw(st.sampled_from(["", "", "", "'s", ":a", "!x", "*", "(a)", "''", ",y;z", "=$"])),
             "status": draw(st.sampled_from([200, 200, 500, 404, 204])),
             "body": draw(st.sampled_from(BODIES)),
-            "content_type": draw(st.sampled_from(["application/json", "text/plain", "application/octet-stream", "text/plain; charset=latin-1"])),
+            "content_type": draw(st.sampled_from(["application/json", "text/plain", "application/octet-stream", "text/plain; charset=latin-1", "text/plain; charset=no-such-charset", "text/plain; charset=x'y", 'application/json; charset="utf-8"'])),
             "header": draw(st.sampled_from([None, "plain", "caf\xe9 latin", "quote'd \"x\"", "a: b, c", "c1 \x80 and \x9f end", "back\\slash \xff"])),
             "example": draw(st.sampled_from([None, "it's", "a b&c=d", "50%", "é✓", "#frag?"])),
             "drop": draw(st.integers(0, 9)) == 0,
@@ -65,6 +66,8 @@ def report_case(draw):
         "sanitize": draw(st.booleans()),
         "seed": draw(st.integers(0, 1000)),
         "workers": draw(st.sampled_from([1, 2])),
+        # the cassette records the command line
+        "cli_header": draw(st.sampled_from([None, None, "X-Cli: plain", "X-Cli: it's", "X-Cli: \"q\" #x", "X-Cli: a: 'b'"])),
     }
 
 
@@ -127,6 +130,8 @@ def check_reports(ctx: Ctx, inp) -> None:
         args = ["run", schema_path, "--url", server.url, "--report", "junit,vcr,har", "--report-dir", report_dir, "--phases", ",".join(inp["phases"]), "--max-examples", "4", "--seed", str(inp["seed"]), "--workers", str(inp["workers"]), "--no-color", "--checks", "not_a_server_error", "--continue-on-failure", "--output-sanitize", "true" if inp["sanitize"] else "false"]
         if inp["preserve_bytes"]:
             args.append("--report-preserve-bytes")
+        if inp.get("cli_header"):
+            args += ["--header", inp["cli_header"]]
         code, output = engine_run.run_cli(args)
         log = server.snapshot()
         dropped = [r for r in log if _dropped(inp, r)]
@@ -183,6 +188,8 @@ def check_reports(ctx: Ctx, inp) -> None:
             ctx.disagree("vcr:not-valid-yaml" + _yaml_cause(inp, exc), f"{type(exc).__name__}: {str(exc)[:300]}", input=inp)
             cassette = None
         if cassette is not None:
+            if cassette.get("command") != "st " + " ".join(args):
+                ctx.disagree("vcr:recorded-command-differs", f"{cassette.get('command')!r} vs {'st ' + ' '.join(args)!r}", input=inp)
             inter = cassette.get("http_interactions") or []
             with_response = [i for i in inter if i.get("response") is not None]
             ids = [i["id"] for i in with_response]
@@ -245,6 +252,7 @@ def check_reports(ctx: Ctx, inp) -> None:
                         # lossless for text: re-encoding the recorded string with the recorded encoding gives the bytes back
                         encoding = body.get("encoding") or "utf-8"
                         try:
+                            codecs.lookup(encoding)  # (decoding empty bytes never looks the codec up)
                             decodable = sent.decode(encoding) is not None
                         except (UnicodeDecodeError, LookupError):
                             decodable = False
